@@ -2,6 +2,7 @@
 
 from typing import Any, Callable, Mapping, Optional, Sequence, Type, cast
 
+from ..exc import ExecutionError
 from ..lang import ast as _ast
 from ..schema import Schema
 from ..utilities import coerce_variable_values
@@ -100,7 +101,7 @@ def execute(
     elif operation.operation == "mutation":
         exe_fn = executor.execute_fields_serially
     elif operation.operation == "subscription":
-        raise RuntimeError(
+        raise ExecutionError(
             "`execute` does not support subscriptions, "
             "use the `subscribe` helper."
         )
